@@ -166,7 +166,7 @@ func dumpTerms(rel, name string) int {
 		on, inLoop := e.OnEveryPathToReturn()
 		fmt.Printf("EVENT %s every-path=%v in-loop=%v: %s\n", prog.Pos(e.Instr.Pos()), on, inLoop, ev.Resolve(e.Term))
 	}
-	for _, l := range eng.Loops(fn) {
+	for _, l := range ev.Loops() {
 		if l.IV != nil {
 			fmt.Printf("LOOP %s: init=%s step=%d cond=(iv%+d %s %s) exitsOK=%v\n", l.ID(), l.Init, l.Step, l.TestOff, l.CondOp, l.Bound, l.ExitsOK)
 		} else {
